@@ -142,24 +142,22 @@ def builderObs (channels : List ExchangeId) (n : Nat) : List String :=
 def parseList (t : String) : Option (List ExchangeId) :=
   if t == "-" then some [] else (t.splitOn ",").mapM parseEx
 
-/-- the connector a failing future belongs to is needed for its text -/
-def firstConn (b : Builder Inst) : Option Exch := b.futures.head?.map (·.1)
-
-def preNetLine (c? : Option Exch) (channels : List ExchangeId) :
-    Option (PreNet (SubscribeOutcome Inst)) → List String
+/-- what `init` of a builder printed: `Ok` with the channel owners | the error of the deciding future (its text
+names the connector the future belongs to) | pending on the network -/
+def preNetLine (channels : List ExchangeId) : Option (PreNet (Exch × SubscribeOutcome Inst)) → List String
   | none => ["% builder:no-future", "res ok " ++ exs channels]
   | some .network => ["% builder:network", "res network"]
-  | some (.error o) =>
-    match c? with
-    | some c =>
-      [(match o with | .empty => "% builder:empty" | _ => "% builder:unsupported"),
-        "res err " ++ str (o.text kindDisp c)]
-    | none => ["bad-op"]
+  | some (.error (c, o)) =>
+    [(match o with | .empty => "% builder:empty" | _ => "% builder:unsupported"),
+      "res err " ++ str (o.text kindDisp c)]
 
-/-- the builder whose first future decides `MultiStreamBuilder::init` -/
-def decidingBuilder : List (Builder Inst) → Option (Builder Inst)
-  | [] => none
-  | b :: t => if b.futures.isEmpty then decidingBuilder t else some b
+/-- which branch of `try_join_all` decided, for the exploration histogram -/
+def joinTags (n : Nat) (polls : List (Option (PreNet (Exch × SubscribeOutcome Inst)))) : List String :=
+  [(if n ≤ tryJoinSmall then "% join:small" else "% join:big"),
+    (match polls with
+     | some (.error _) :: _ => "% join:first-future-fails"
+     | _ => if polls.any (fun p => match p with | some (.error _) => true | _ => false)
+            then "% join:later-future-fails" else "% join:no-future-fails")]
 
 /-! ### model -/
 
@@ -330,7 +328,9 @@ def model : Drv St where
       | _, _, _ => (s, ["bad-op"])
     | ["sbinit"] =>
       match s.sb with
-      | some b => ({ s with sb := none }, preNetLine (firstConn b) b.channels (b.init instOps))
+      | some b =>
+        ({ s with sb := none },
+          joinTags b.futures.length (b.firstPolls instOps) ++ preNetLine b.channels (b.init instOps))
       | none => (s, ["bad-op"])
     | ["mb"] => ({ s with multi := some {} }, builderObs [] 0)
     | ["madd"] =>
@@ -343,7 +343,8 @@ def model : Drv St where
       match s.multi with
       | some m =>
         ({ s with multi := none },
-          preNetLine ((decidingBuilder m.futures).bind firstConn) m.channels (m.init instOps))
+          joinTags m.futures.length (m.futures.map fun b => b.init instOps) ++
+            preNetLine m.channels (m.init instOps))
       | none => (s, ["bad-op"])
     | "map" :: ts =>
       match ts.mapM (fun t => match t.splitOn "=" with
@@ -393,17 +394,95 @@ def present (s : SpecSt) (f : Chan) (e : ExchangeId) : Bool := specPresent s.dsI
 def specFam (s : SpecSt) : List String :=
   Chan.all.map fun f => "fam " ++ famName f ++ " " ++ exs ((s.dsInit.get f).eraseDups.filter (present s f))
 
-def specSubscribeLine (b : Builder Inst) (channels : List ExchangeId) : List String :=
-  match b.futures with
-  | [] => ["res ok " ++ exs channels]
-  | (c, insts) :: _ =>
-    if insts.any (fun i => staticException c i.kind.cls) then []
-    else
-      match insts.find? (fun i => !documentedIK (connId c) i.kind.cls) with
-      | some i => ["res err " ++ str ((SubscribeOutcome.unsupported i).text kindDisp c)]
-      | none =>
-        if insts.isEmpty then ["res err " ++ str ((SubscribeOutcome.empty : SubscribeOutcome Inst).text kindDisp c)]
-        else ["res network"]
+/-- What the documentation lets one expect of a future when it is first polled. -/
+inductive SpecPoll where
+  /-- `Ok` at once (a builder without any `subscribe` call) -/
+  | ok
+  /-- the static `validate` contradicts the README table for one of the instruments: the spec is silent -/
+  | silent
+  /-- fails before the network, with this `res` line -/
+  | fails (line : String)
+  /-- goes to the network -/
+  | network
+
+/-- one `subscribe` call, from the README table (`documentedIK`), not from the code's table -/
+def specCall (c : Exch) (insts : List Inst) : SpecPoll :=
+  if insts.any (fun i => staticException c i.kind.cls) then .silent
+  else
+    match insts.find? (fun i => !documentedIK (connId c) i.kind.cls) with
+    | some i => .fails ("res err " ++ str ((SubscribeOutcome.unsupported i).text kindDisp c))
+    | none =>
+      if insts.isEmpty then .fails ("res err " ++ str ((SubscribeOutcome.empty : SubscribeOutcome Inst).text kindDisp c))
+      else .network
+
+/-- `try_join_all` (futures-util 0.3.34) on at most 30 futures: all are polled in one pass, the first that
+fails in that pass is the result ("if any future returns an error … an error will be returned immediately") -/
+def specJoinSmall : List SpecPoll → SpecPoll
+  | [] => .ok
+  | .ok :: t => specJoinSmall t
+  | .fails l :: _ => .fails l
+  | .silent :: _ => .silent
+  | .network :: t =>
+    match specJoinSmall t with
+    | .fails l => .fails l
+    | .silent => .silent
+    | _ => .network
+
+/-- on more than 30 futures the results are taken in order: the first future that is not `Ok` decides -/
+def specJoinBig : List SpecPoll → SpecPoll
+  | [] => .ok
+  | .ok :: t => specJoinBig t
+  | p :: _ => p
+
+def specJoin (l : List SpecPoll) : SpecPoll := if l.length ≤ 30 then specJoinSmall l else specJoinBig l
+
+def specBuilder (b : Builder Inst) : SpecPoll := specJoin (b.futures.map fun f => specCall f.1 f.2)
+
+def specPollLines (channels : List ExchangeId) : SpecPoll → List String
+  | .ok => ["res ok " ++ exs channels]
+  | .silent => []
+  | .fails l => [l]
+  | .network => ["res network"]
+
+/-! `#[derive(Ord)]` of `Subscription<ExchangeId, MarketDataInstrument, SubKind>` written out field by field
+(names compared as `String`s), and "the set of the batch" by insertion: independent of the model's sort keys
+and of its `sortDedup`. -/
+
+def ikRank : IK → Nat
+  | .spot => 0 | .perpetual => 1 | .future _ => 2 | .option .. => 3
+
+def cmpIK : IK → IK → Ordering
+  | .future e, .future e' => compare e e'
+  | .option p x e k, .option p' x' e' k' =>
+    (compare p p').then ((compare x x').then ((compare e e').then (compare k k')))
+  | a, b => compare (ikRank a) (ikRank b)
+
+def cmpName (a b : Nat) : Ordering := compare (String.ofList (assetName a)) (String.ofList (assetName b))
+
+def cmpInst (a b : Inst) : Ordering :=
+  (cmpName a.base b.base).then ((cmpName a.quote b.quote).then (cmpIK a.kind b.kind))
+
+def cmpSub (a b : Subscr Inst) : Ordering :=
+  (compare a.exchange.toNat b.exchange.toNat).then
+    ((cmpInst a.instrument b.instrument).then (compare a.kind.toNat b.kind.toNat))
+
+def insertSet {α : Type} (cmp : α → α → Ordering) (x : α) : List α → List α
+  | [] => [x]
+  | y :: t =>
+    match cmp x y with
+    | .lt => x :: y :: t
+    | .eq => y :: t
+    | .gt => y :: insertSet cmp x t
+
+/-- "the subscriptions of the batch" as an ascending set -/
+def specSubSet (l : List (Subscr Inst)) : List (Subscr Inst) := l.foldl (fun acc x => insertSet cmpSub x acc) []
+
+/-- one connection per distinct `(exchange, kind)` of the batch (ascending), each with the batch's
+subscriptions of that key -/
+def specGroupsI (b : List (Subscr Inst)) : List ((ExchangeId × SubKind) × List (Subscr Inst)) :=
+  let keys := b.foldl (fun acc s => insertSet
+    (fun (x y : ExchangeId × SubKind) => (compare x.1.toNat y.1.toNat).then (compare x.2.toNat y.2.toNat)) s.gkey acc) []
+  keys.map fun k => (k, (specSubSet b).filter fun s => s.gkey = k)
 
 def spec : Drv SpecSt where
   init := {}
@@ -441,19 +520,19 @@ def spec : Drv SpecSt where
            else [if documentedIK (connId c) i.kind.cls then "res ok" else "res err"]))
       | _, _, _ => (s, ["bad-op"])
     | ["static"] =>
-      (s, ("ids " ++ nats (connAll.map fun c => (connId c).toNat)) ::
-        connAll.zipIdx.map fun (c, n) =>
+      -- `ids` (Connector::ID of the 15 connector types) is correspondence-only: the documentation has no second source for it
+      (s, connAll.zipIdx.map fun (c, n) =>
           "sel" ++ toString n ++ " " ++
             bits (SubKind.all.map fun k => IKC.all.any fun ik => specSupports (connId c) ik k))
     | ["arms"] => (s, [])
     | ["kinds"] => (s, [])
-    | ["empty"] => (s, ["res err " ++ str ((InitErr.subscriptionsEmpty : InitErr Inst).text kindDisp)])
+    | ["empty"] => (s, [])
     | "disp" :: _ => (s, [])
     | ["dsub", _] => (s, [])
     | "vsubs" :: ts =>
       match ts.mapM parseSub with
       | some subs =>
-        if subs.all specValid then (s, ["res ok", "subs " ++ " ".intercalate ((specSet instOps subs).map subTok)])
+        if subs.all specValid then (s, ["res ok", "subs " ++ " ".intercalate ((specSubSet subs).map subTok)])
         else (s, ["res err"])
       | none => (s, ["bad-op"])
     | "init" :: ts =>
@@ -462,7 +541,7 @@ def spec : Drv SpecSt where
         if specAccepts specValid batches then
           (s, ["res ok", "nb " ++ toString batches.length] ++
             (batches.zipIdx.flatMap fun (b, i) =>
-              (specGroups instOps b).map fun g =>
+              (specGroupsI b).map fun g =>
                 "grp " ++ toString i ++ " " ++ toString g.1.1.toNat ++ " " ++ toString g.1.2.toNat ++ " " ++
                   (match route g.1.2 with | some f => famName f | none => "none") ++ " " ++
                   " ".intercalate (g.2.map fun x => instTok x.instrument)) ++
@@ -528,7 +607,8 @@ def spec : Drv SpecSt where
       | _, _, _ => (s, ["bad-op"])
     | ["sbinit"] =>
       match s.sb with
-      | some b => ({ s with sb := none }, specSubscribeLine b (b.futures.map fun f => connId f.1))
+      | some b =>
+        ({ s with sb := none }, specPollLines ((b.futures.map fun f => connId f.1).eraseDups) (specBuilder b))
       | none => (s, ["bad-op"])
     | ["mb"] => ({ s with multi := some {} }, builderObs [] 0)
     | ["madd"] =>
@@ -543,9 +623,8 @@ def spec : Drv SpecSt where
       match s.multi with
       | some m =>
         ({ s with multi := none },
-          match decidingBuilder m.futures with
-          | some b => specSubscribeLine b []
-          | none => ["res ok " ++ exs ((m.futures.flatMap fun b => b.futures.map fun f => connId f.1).eraseDups)])
+          specPollLines ((m.futures.flatMap fun b => b.futures.map fun f => connId f.1).eraseDups)
+            (specJoin (m.futures.map specBuilder)))
       | none => (s, ["bad-op"])
     | "map" :: ts =>
       match ts.mapM (fun t => match t.splitOn "=" with
